@@ -29,6 +29,54 @@ def sep_value(f, t):
     return const_int(t)
 
 
+def innermost_loop(b, site):
+    """(next call, body entry) of the innermost loop whose element reaches an operand of `site` and whose body contains it; None when there is none."""
+    ops = [t for a in site.args for t in subterms(a)]
+    cands = []
+    for c in b.calls_to("Iterator::next"):
+        if c.result_term() not in ops:
+            continue
+        si = b.switch_info(c.target)
+        some = [t for v, t in si[1] if v == 1] if si else []
+        if some and site.bb in b.reach(some[0], avoid_blocks=[c.bb]):
+            cands.append((c, some[0]))
+    if not cands:
+        return None
+    return max(cands, key=lambda x: len([y for y in cands if y[0].bb != x[0].bb and b.dominates(y[0].bb, x[0].bb)]))
+
+
+def literal_prefixes(f, b):
+    """{write site bb: (write_u8 site, byte)}: a constant ASCII byte written with write_u8 directly before a variable-length component, for every such component
+    (`h.write_u8(b'$'); h.write(name.as_bytes())` hashes the bytes of format!("${}", name)): part of the component, not a separator."""
+    out = {}
+    for h, evs in hasher_events(b).items():
+        writes = [c for k, c in evs if k in ("write", "write_str")]
+        blocks = {c.bb for _, c in evs}
+        for k, p in evs:
+            if k != "write_u8":
+                continue
+            v = sep_value(f, p.args[1])
+            if v is None or v in NON_UTF8 or v >= 0x80:
+                continue
+            for w in writes:
+                if w.bb == p.bb:
+                    continue
+                others = blocks - {w.bb}
+                nxt = set()
+                for s_ in b.succs(p.bb):
+                    nxt |= b.reach(s_, avoid_blocks=[w.bb]) & others
+                if nxt - {p.bb} or w.bb not in b.reach(p.bb):
+                    continue
+                lp = innermost_loop(b, w)
+                if lp is not None:
+                    ok = b.all_paths_pass(lp[1], [p.bb], dst_set={w.bb})
+                else:
+                    ok = b.dominates(p.bb, w.bb)
+                if ok:
+                    out[w.bb] = (p, v)
+    return out
+
+
 def rule_separators(ctx, f, b, rid, key):
     """Injective hash input: every Hasher::write of variable-length bytes is followed, on every path and before the next
     write/finish on the same hasher, by write_u8(separator), separator not a UTF-8 byte.  Returns number of write sites."""
@@ -36,11 +84,14 @@ def rule_separators(ctx, f, b, rid, key):
     for h, evs in hasher_events(b).items():
         writes = [c for k, c in evs if k in ("write", "write_str")]
         seps = []
+        prefix_sites = {p.bb for p, _ in literal_prefixes(f, b).values()}
         for k, c in evs:
             if k == "write_u8":
                 v = sep_value(f, c.args[1])
                 if v in NON_UTF8:
                     seps.append(c)
+                elif c.bb in prefix_sites:
+                    continue     # a literal first byte of the component that follows
                 else:
                     ctx.ob(rid, "%s|sep-value|%d" % (key, len(seps)), False,
                            "a separator written with write_u8 must be a byte that cannot occur in UTF-8 (found %s = %s)" % (show(c.args[1]), v), site=c.span)
